@@ -547,6 +547,38 @@ Proof.
   unfold size_ok. cbn [o_size]. apply N.eqb_refl.
 Qed.
 
+Theorem stream_write_by_hash_stored f fl o cs now :
+  CacheInv f -> o_sri o = None -> size_ok o (lenN (List.concat cs)) = true ->
+  let data := List.concat cs in let a := algo_of o in
+  lookup (snd (run (stream_write fl None o cs now) f)) (InCache (cpath hash a data)) = Some (File data).
+Proof.
+  intros Hinv Hns Hs data a. unfold stream_write.
+  destruct (open_writer_inv f fl None o Hinv) as [w [f1 [Hr1 [Hw1 [Hi1 [Hd1 [Hk1 [Ho1 [Ha1 [Hfr1 _]]]]]]]]]].
+  rewrite (run_rbind_ok _ _ _ _ _ Hr1).
+  destruct (write_chunks_inv f1 w cs Hw1 Hi1) as [w2 [f2 [Hr2 [Hw2 [Hi2 [[S1 [S2 [S3 S4]]] [Hd2 Hfr2]]]]]]].
+  rewrite (run_rbind_ok _ _ _ _ _ Hr2).
+  rewrite Hd1 in Hd2. cbn [app] in Hd2.
+  assert (w_key w2 = None) as Hk2 by congruence.
+  assert (w_opts w2 = o) as Ho2 by congruence.
+  assert (w_algo w2 = a) as Ha2 by (unfold a, algo_of; congruence).
+  assert (declared_ok (w_opts w2) (sri_of hash (w_algo w2) (w_data w2)) = Some (sri_of hash (w_algo w2) (w_data w2))) as Hd
+    by (unfold declared_ok; rewrite Ho2, Hns; reflexivity).
+  assert (size_ok (w_opts w2) (lenN (w_data w2)) = true) as Hs2 by (rewrite Ho2, Hd2; exact Hs).
+  rewrite (commit_by_hash_ok f2 w2 now Hw2 Hi2 _ Hd Hs2 Hk2).
+  destruct (close_writer_inv f2 w2 Hw2 Hi2) as [f3 [Hclose [_ [Hcp _]]]].
+  rewrite Hclose. cbn [fst snd]. rewrite Ha2, Hd2 in Hcp. exact Hcp.
+Qed.
+
+Theorem write_hash_stored f fl a data :
+  CacheInv f -> lookup (snd (run (write_hash hash fl a data) f)) (InCache (cpath hash a data)) = Some (File data).
+Proof.
+  intros Hinv. unfold write_hash. rewrite (oneshot_stream _ _ _ _ _ _ Hinv).
+  pose proof (stream_write_by_hash_stored f fl (mkWopts (Some a) None (Some (lenN data)) None None None)
+                (match data with [] => [] | _ => [data] end) 0 Hinv) as H.
+  rewrite concat_oneshot in H. cbv zeta in H. apply H; [reflexivity|].
+  unfold size_ok. cbn [o_size]. apply N.eqb_refl.
+Qed.
+
 (* ---------- C14: what does NOT change a lookup ---------- *)
 Theorem open_no_effect f fl key o :
   CacheInv f -> forall k, abs_idx hash (snd (run (open_writer fl key o) f)) k = abs_idx hash f k.
